@@ -404,6 +404,22 @@ with store_l (ts : targets) (o : oracle) : res :=
   | TCons t tl => let '(t1, o1) := store t o in let '(t2, o2) := store_l tl o1 in (t1 ++ t2, o2)
   end.
 
+(* augmented assignment: the receiver / index of the target are evaluated (and loaded) before the value,
+   the store comes last *)
+Definition aug_parts (t : target) (o : oracle) : res :=
+  match t with
+  | TAttr e _ => eval e o
+  | TSub e i => let '(t1, o1) := eval e o in let '(t2, o2) := eval i o1 in (t1 ++ t2, o2)
+  | _ => ([], o)
+  end.
+Definition store_event (t : target) : list event :=
+  match t with
+  | TName x => [EvBind x]
+  | TAttr _ _ => [EvStoreAttr]
+  | TSub e _ => [EvStoreSub (is_underscore e)]
+  | _ => []
+  end.
+
 Definition sres := (list event * outcome * oracle)%type.
 
 (* n iterations of a loop: [head] runs at the start of each iteration (the for-target binding or the
@@ -424,11 +440,32 @@ Fixpoint iterate (n : nat) (head : oracle -> res) (body : oracle -> sres) (o : o
       end
   end.
 
+(* a while loop: the test is evaluated, its truth value drawn, before every iteration.  Every iteration
+   consumes at least one draw and an exhausted oracle answers 0 (false), so [S (length o)] units of fuel are
+   never used up *)
+Fixpoint iterate_while (fuel : nat) (test : oracle -> res) (body : oracle -> sres) (o : oracle)
+  : list event * bool * option ctl * oracle :=
+  match fuel with
+  | 0 => ([], false, None, o)
+  | S k =>
+      let '(t0, o0) := test o in
+      let '(d, o1) := draw o0 in
+      if truthy d then
+        let '(t2, out, o2) := body o1 in
+        match out with
+        | ONormal | OAbrupt CContinue =>
+            let '(t3, brk, ab, o3) := iterate_while k test body o2 in (t0 ++ t2 ++ t3, brk, ab, o3)
+        | OAbrupt CBreak => (t0 ++ t2, true, None, o2)
+        | OAbrupt c => (t0 ++ t2, false, Some c, o2)
+        end
+      else (t0, false, None, o1)
+  end.
+
 (* decorators are applied (called) bottom-up once the definition exists *)
 Fixpoint decorator_calls (decos : exprs) : list event :=
   match decos with
   | ENil => []
-  | ECons e tl => decorator_calls tl ++ [EvCall (match e with EName g => CName g | _ => CDyn end)]
+  | ECons e tl => decorator_calls tl ++ [EvCall (callee_of e)]
   end.
 
 Fixpoint exec (s : stmt) (o : oracle) : sres :=
@@ -437,7 +474,8 @@ Fixpoint exec (s : stmt) (o : oracle) : sres :=
   | SAssign ts v =>
       let '(t1, o1) := eval v o in let '(t2, o2) := store_l ts o1 in (t1 ++ t2, ONormal, o2)
   | SAug t v =>
-      let '(t1, o1) := eval v o in let '(t2, o2) := store t o1 in (t1 ++ t2, ONormal, o2)
+      let '(t1, o1) := aug_parts t o in let '(t2, o2) := eval v o1 in
+      (t1 ++ t2 ++ store_event t, ONormal, o2)
   | SPass => ([], ONormal, o)
   | SControl c => ([], OAbrupt c, o)
   | SIf t b e =>
@@ -454,13 +492,11 @@ Fixpoint exec (s : stmt) (o : oracle) : sres :=
                 else let '(t3, out, o4) := exec_ss e o3 in (t1 ++ t2 ++ t3, out, o4)
       end
   | SWhile t b e =>
-      let '(n, o1) := draw o in
-      let '(t2, brk, ab, o2) := iterate n (eval t) (exec_ss b) o1 in
+      let '(t2, brk, ab, o2) := iterate_while (S (List.length o)) (eval t) (exec_ss b) o in
       match ab with
       | Some c => (t2, OAbrupt c, o2)
       | None => if brk then (t2, ONormal, o2)
-                else let '(t3, o3) := eval t o2 in
-                     let '(t4, out, o4) := exec_ss e o3 in (t2 ++ t3 ++ t4, out, o4)
+                else let '(t4, out, o4) := exec_ss e o2 in (t2 ++ t4, out, o4)
       end
   | SWith ctx b =>
       let '(t1, o1) := eval ctx o in
